@@ -367,6 +367,21 @@ theorem csv_json_first_bytes_differ (unixNano : Int) (rest body : Bytes) :
   · intro hh; subst hh; simp [isDigit] at hb
   · omega
 
+/-- **The three formats are told apart by the first byte of any non-empty stream of the encoders'
+images**: gob `0xFF`, JSON `{` (0x7B), CSV a digit or `-` — pairwise different. -/
+theorem formats_first_bytes_differ (z : Vegeta.Model.GobValue.Zone) (r : Vegeta.Model.Codec.Result) (rs : List Vegeta.Model.Codec.Result) (s : Bytes)
+    (h : Vegeta.Model.GobValue.encodeGobAll z (r :: rs) = some s) (unixNano : Int) (rest body : Bytes) :
+    s.head? ≠ (jsonRecord body).head? ∧ s.head? ≠ (csvRecord unixNano rest).head? ∧
+    (csvRecord unixNano rest).head? ≠ (jsonRecord body).head? := by
+  obtain ⟨tl, hs⟩ := gob_stream_first_byte z r rs s h
+  refine ⟨by rw [hs]; simp [jsonRecord], ?_, csv_json_first_bytes_differ unixNano rest body⟩
+  obtain ⟨b, tl', hc, hb⟩ := csv_record_first_byte unixNano rest
+  rw [hs, hc]
+  simp only [List.head?_cons, ne_eq, Option.some.injEq]
+  rcases hb with hb | hb
+  · intro hh; subst hh; simp [isDigit] at hb
+  · omega
+
 /-! ### transcoding chains
 
 `SeqEq`, `RoundTrips`, `chain_preserves` (abstract codec family): Proofs/Chain.lean.
